@@ -35,6 +35,7 @@ def runCase (lines : Array String) : Array String := Id.run do
     | ["racepub", _, _] => out := out.push "racepub ok"
     | ["cancelresume", _, _, _] => out := out.push "cancelresume ok"
     | ["livechain", _, _, _] => out := out.push "livechain ok"
+    | ["panicresume", _, _, _] => out := out.push "panicresume ok"
     | ["restart"] =>
       s := stepOp plan s .restart
       out := out.push "restart"
